@@ -147,10 +147,16 @@ fn slow_backlog(cap: Option<usize>, n: usize) -> usize {
     let delivered = Arc::new(AtomicUsize::new(0));
     let dropped = Arc::new(AtomicBool::new(false));
     let sink = SlowSink { per_metric: Duration::from_secs(600), delivered: delivered.clone(), dropped: dropped.clone() };
-    let q = match cap {
-        Some(c) => QueuingMetricSink::with_capacity(sink, c),
-        None => QueuingMetricSink::from(sink),
-    };
+    // a handler is configured: a wrapped sink that is slow but answers Ok gives it nothing to do
+    let handled = Arc::new(AtomicUsize::new(0));
+    let h2 = handled.clone();
+    let mut b = QueuingMetricSink::builder().with_error_handler(move |_e| {
+        h2.fetch_add(1, Ordering::SeqCst);
+    });
+    if let Some(c) = cap {
+        b = b.with_capacity(c);
+    }
+    let q = b.build(sink);
     let q2 = q.clone();
     let mut acc = 0;
     for k in 0..n {
@@ -166,6 +172,9 @@ fn slow_backlog(cap: Option<usize>, n: usize) -> usize {
         fail("C09", format!("dropping the handles took {:?} of virtual time with a backlog of {} behind a sink that takes 600 s per metric: drop waits for the wrapped sink", waited, acc));
     }
     wait_for("release of the wrapped sink", "C09", || dropped.load(Ordering::SeqCst));
+    if handled.load(Ordering::SeqCst) != 0 {
+        fail("C16", format!("the error handler was invoked {} times although the slow wrapped sink (600 s per metric) accepted every metric", handled.load(Ordering::SeqCst)));
+    }
     let d = delivered.load(Ordering::SeqCst);
     if d != acc {
         fail("C09", format!("{} metrics were accepted before the last drop, the slow wrapped sink (600 s per metric) received {} before it was released", acc, d));
